@@ -214,6 +214,14 @@ def case(ctx, kind, shape, axes, impl, hc, sign, dtype, box=None, shift=None, py
         ctx.fact('returns-out', r is o)
         ctx.eq('dft(out=)', o, ref)
         ctx.eq('input-unchanged(out=)', x, x0)
+        if dtype == 'complex128' and not hc:
+            # in place: the argument is the output (a fresh operator, so that the plan is made on these arrays)
+            op_ip = T.DiscreteFourierTransform(dom, range=dom, axes=axes, halfcomplex=hc, sign=sign, impl=impl)
+            z = x.copy()
+            op_ip(z, out=z)
+            ctx.eq('in-place(out=x)', z, ref)
+            op_ip(z, out=z)
+            ctx.eq('in-place(out=x)/second-call', z, dft_reference(ctx, ref, axes, sign, hc))
         # second call re-uses the FFTW plan
         y2 = op(x)
         ctx.eq('second-call(plan-reuse)', y2, ref)
